@@ -82,7 +82,27 @@ def objectives():
         ("sum(w[::2]**2)+sum(w[:0:-1])", add(("sum", ("vpow", ("slice", W3, None, None, 2), 2)), ("sum", ("slice", W3, None, 0, -1)))),
         ("frob(S)", ("frob", S)), ("x10**x9", ("bin", "**", x10, x9)), ("2**x9+x10", add(("bin", "**", c(2), x9), x10)),
         ("s/t", ("bin", "/", s_, t_)), ("exp(s)**t", ("bin", "**", ("un", "exp", s_), ("un", "sin", t_))),
-    ]
+    ] + block_objectives()
+
+
+def block_objectives():
+    """whole-block reductions of sub-matrices (views of views) of a symmetric and a plain 4x4 matrix: principal,
+    off-diagonal, stepped with equal and with different steps, reversed; and their transposes."""
+    out = []
+    Z = ("mvar", "Z", 4, 4, True)
+    B = ("mvar", "B", 4, 4, False)
+    subs = [(0, 2, 0, 2, None, None), (0, 2, 2, 4, None, None), (1, 3, 0, 2, None, None), (None, None, None, None, 2, 2),
+            (None, None, None, None, 2, 3), (None, None, None, None, 3, 2), (None, None, None, None, -1, -1),
+            (None, None, None, None, -1, None), (1, None, 1, None, 2, None), (0, 3, 1, 4, None, None)]
+    for base, bl in ((Z, "Z"), (B, "B")):
+        for sb in subs if bl == "Z" else subs[3:6]:
+            blk = ("sub", base) + sb
+            lab = f"{bl}[{sb}]"
+            out.append(("sum " + lab, ("msum", blk)))
+            out.append(("frob " + lab, ("frob", blk)))
+            out.append(("sum T " + lab, ("msum", ("T", blk))))
+            out.append(("sum row0 " + lab, ("sum", ("row", blk, 0, None, None, None))))
+    return out
 
 
 def constraints():
